@@ -60,7 +60,7 @@ finding(["C14"], "F1", "tensor.numpyDtypes[Int32]", "GOARCH=386: Int32 is writte
 finding(["C14"], "F1", "tensor.numpyDtypes[Uint32]", "GOARCH=386: Uint32 is written as u4, which the reader maps to Uint", "Uint32->u4->Uint", 43)
 
 FIXED = [
- {"property":"C10","commit":"d300317","rule":"P2","key":"tensor.(*Dense).Concat(t), tensor.(*Dense).Hstack(t), tensor.(*Dense).Vstack(t), tensor.(StdEng).Concat(t), tensor.(StdEng).Concat(others), tensor.Concat(t)","what":"fixed: property=C10 d300317 denseConcat reshaped row-vector operands and cleared a masked operand's mask (mt.SetMask(nil)); the restore was commented out (DESIGN finding 16)"},
+ {"property":"C10","commit":"733eed1","rule":"P2","key":"tensor.(*Dense).Concat(t), tensor.(*Dense).Hstack(t), tensor.(*Dense).Vstack(t), tensor.(StdEng).Concat(t), tensor.(StdEng).Concat(others), tensor.Concat(t)","what":"fixed: property=C10 733eed1 denseConcat reshaped row-vector operands and cleared a masked operand's mask (mt.SetMask(nil)); the restore was commented out (DESIGN finding 16)"},
  {"property":"C18","commit":"7e8227a","rule":"P2","key":"tensor.(*Dense).Norm(t)","what":"fixed: property=C18 7e8227a Norm swapped a flat access pattern into its operand for the duration of a Dot call: eight goroutines calling t.Norm() on one shared tensor got wrong norms, data races, and left t with shape (0) (DESIGN finding 48)"},
  {"property":"C18","commit":"258a79f","rule":"P2","key":"tensor.(*Dense).Outer(t), tensor.(*Dense).Outer(other), tensor.(StdEng).Outer(a), tensor.(StdEng).Outer(b), tensor.Outer(a), tensor.Outer(b)","what":"fixed: property=C18 258a79f Outer into a column-major result temporarily reshaped both operands to (m,1) and (1,n): concurrent readers of the operands raced on their shape (DESIGN finding 14)"},
  {"property":"C18","commit":"84b676e","rule":"P2","key":"tensor.(StdEng).Dot(y), tensor.Dot(y)","what":"fixed: property=C18 84b676e Dot(vector, matrix) did b.T(); defer b.UT() on its operand: a lazily transposed b came back untransposed, and concurrent readers of b raced (DESIGN finding 13)"},
